@@ -124,24 +124,30 @@ def keyPositions (line : Str) (nkeys : Nat) : Except Exc (Option (List Int)) := 
 
 /-! ### parse_table_line -/
 
+/-- `exppos = line.find('E', pstart, pend)`: `if exppos > 0: next_start = exppos + 3 + 1` else
+    `raise Exception("Unable to parse table line")` -/
+def expBoundary (line : Str) (pstart pend : Nat) : Except Exc Nat :=
+  match findCharIn line 'E' pstart pend with
+  | some e => if e > 0 then .ok (e + 4) else .error .generic
+  | none => .error .generic
+
+/-- the start of the next field, from the characters between two consecutive decimal points:
+    the first blank, else just behind an exponent `E±dd` -/
+def nextStart (line : Str) (pt nextpt : Nat) : Except Exc Nat :=
+  match findCharIn line ' ' (pt + 1) (nextpt - 1) with
+  | some sp => if sp > 0 then .ok sp else expBoundary line (pt + 1) (nextpt - 1)
+  | none => expBoundary line (pt + 1) (nextpt - 1)
+
 /-- the loop over consecutive decimal points -/
 def boundaries (line : Str) : List Nat → Except Exc (List Nat)
-  | pt :: nextpt :: rest => do
-    let pstart := pt + 1
-    let pend := nextpt - 1
-    let next ←
-      match findCharIn line ' ' pstart pend with
-      | some sp => if sp > 0 then pure sp else
-          (match findCharIn line 'E' pstart pend with
-           | some e => if e > 0 then pure (e + 4) else .error .generic
-           | none => .error .generic)
-      | none =>
-          (match findCharIn line 'E' pstart pend with
-           | some e => if e > 0 then pure (e + 4) else .error .generic
-           | none => .error .generic)                -- raise Exception("Unable to parse table line")
-    let more ← boundaries line (nextpt :: rest)
-    return next :: more
-  | _ => return []
+  | pt :: nextpt :: rest =>
+    match nextStart line pt nextpt with
+    | .error e => .error e
+    | .ok next =>
+      match boundaries line (nextpt :: rest) with
+      | .error e => .error e
+      | .ok more => .ok (next :: more)
+  | _ => .ok []
 
 /-- `t2listing.parse_table_line(line, start, columns)` -/
 def parseTableLine (line : Str) (start : Option Int) (cols : List Str) : Except Exc (List (Option Int)) := do
